@@ -52,7 +52,6 @@ type Config struct {
 	// Wide map literals (9..WideMaps keys) to expose unsorted traversals.
 	WideMaps     int
 	NoUntypedMap bool
-	TopMap       int // percent: top-level call is a map call
 	BigInts      bool
 }
 
@@ -65,7 +64,6 @@ func DefaultConfig() *Config {
 		PWildcard: 10, PNarrow: 30, PProject: 40, PFlowTypes: 60, PTwin: 15, AllowNestedMap: true,
 		KeyPool: []string{"a", "b", "k1", "key two", "z9"},
 		SrcFor:  func(s string) (string, string) { return "comp", "/bin/true " + s },
-		TopMap:  10,
 	}
 }
 
